@@ -47,7 +47,7 @@ impl Outcome {
                     format!("error:{k}")
                 }
             }
-            Outcome::Panic(c) => format!("panic:{c}"),
+            Outcome::Panic(_) => "panic".into(),
         }
     }
     pub fn is_panic(&self) -> bool {
